@@ -1,7 +1,7 @@
 SPECIFICATION TSpec
 CONSTANTS
   AProcs <- TraceProcs
-  AKeys = {"k0", "k1", "k2", "k3"}
+  AKeys = {"a", "b", "c", "d"}
   NoKey = "-"
   AVals = {}
   TraceFile = "once_trace.ndjson"
